@@ -10,6 +10,8 @@ CHECKS = {
  "C05": ("model_checking", "every returned Jacobian validated against the right-Jacobian expressed through Adj, Jr series and generators of the model (LieMath.tla), unit-aware 1e-6 tolerance", "TLA+ model (Jacobian series in exact arithmetic) + trace validation"),
  "C06": ("model_checking", "rjac/ljac and inverses, Adj, smallAdj validated against the series / conjugation / bracket definitions evaluated exactly by TLC", "TLA+ model + trace validation"),
  "C07": ("model_checking", "generators, hat, vee, bracket, inner weights validated exactly against the documented generator basis of Groups.tla; algebra identities model-checked on the integer tangent lattice", "TLA+ model (exhaustive integer lattice) + trace validation"),
+ "C09": ("model_checking", "Manif.tla abstract register machine (results are functions of operation and operand values only; one location written per call) explored exhaustively for short histories; every single call (op x destination x operand registers x output mask) and simulated long histories replayed on the real library; ManifHistTrace.tla requires one consistent binding identifier->bits for the whole history: determinism across masks/storage/repetition, operands unmodified, in-place forms equal to the value forms, Jacobian hosts written exactly in their block", "TLA+ abstract machine (TLC exhaustive + simulation) with behaviours replayed on the implementation and validated step by step"),
+ "C10": ("model_checking", "the behaviours of Manif.tla replayed with Eigen::Map views (mutable, const, aliasing) over an unaligned user buffer with guard zones and in an AddressSanitizer build; ManifHistTrace.tla checks the whole buffer image after every call (frame condition cell by cell), equality with the owning twin and exact write-through", "TLA+ abstract machine with memory slots; behaviours replayed and validated step by step; ASan observes reads"),
  "C17": ("model_checking", "DeCasteljau.tla: the transcribed window bookkeeping refines the specification windows on the whole box N<=16,k<=4 (TLC exhaustive, termination, index bounds); every configuration replayed on the real decasteljau with a one-hot trajectory whose output reveals the weights, validated by DeCasteljauTrace.tla", "TLA+ refinement model checked exhaustively + per-configuration replay on the implementation"),
 }
 NOT_YET = {}
